@@ -428,6 +428,10 @@ def r5(run, project):
     bp = cm.functions().get("SizeConstraint.bytes_parsed")
     if bp is None:
         raise AnalysisError("C03: SizeConstraint.bytes_parsed not found")
+    if len(bp.args.args) < 4:
+        raise AnalysisError("C03: SizeConstraint.bytes_parsed no longer has the (path, size, anticipate_only) interface the region rules "
+                            "R2 / R5 / R7 / R8 are stated over (asking and charging were split into separate methods?): a redistribution of "
+                            "responsibilities between the region methods is not followed - DESIGN section 7")
     size_p, ant_p = bp.args.args[2].arg, bp.args.args[3].arg
     from .. import paths
     n_paths = 0
